@@ -229,18 +229,24 @@ Proof.
   destruct ((D mod 10 =? 0) && negb (D =? 0)); [apply IH; apply Z.div_pos; lia|exact HD].
 Qed.
 
-Lemma search_nonneg : forall f iv dp k D P, 0 <= iv_xn iv -> 0 < iv_den iv ->
-  search f iv dp k = Some (D, P) -> 0 <= D.
+Lemma div_nonneg : forall a b, 0 <= a -> 0 <= b -> 0 <= a / b.
 Proof.
-  induction f as [|f IH]; intros iv dp k D P Hx Hd H; [discriminate H|]. cbn [search] in H.
-  set (A := 10 ^ Z.max (dp - k) 0) in *. set (B := 10 ^ Z.max (- (dp - k)) 0) in *.
-  assert (HA : 0 < A) by (apply Z.pow_pos_nonneg; lia). assert (HB : 0 < B) by (apply Z.pow_pos_nonneg; lia).
-  assert (Ht : 0 <= iv_xn iv * B / (iv_den iv * A)) by (apply Z.div_pos; nia).
-  destruct (in_interval iv (iv_xn iv * B / (iv_den iv * A)) (dp - k) && in_interval iv (iv_xn iv * B / (iv_den iv * A) + 1) (dp - k)).
+  intros a b Ha Hb. destruct (Z.eq_dec b 0) as [->|Hn]; [rewrite Zdiv_0_r; lia|]. apply Z.div_pos; lia.
+Qed.
+
+Lemma search_nonneg : forall f incl P xb lb ub half D P', 0 <= xb -> 0 <= half ->
+  search f incl P xb lb ub half = Some (D, P') -> 0 <= D.
+Proof.
+  induction f as [|f IH]; intros incl P xb lb ub half D P' Hx Hh H; [discriminate H|]. cbn [search] in H.
+  assert (Ht : 0 <= xb / half) by (apply div_nonneg; lia).
+  set (t := xb / half) in *.
+  destruct (in_bounds incl lb ub (t * half) && in_bounds incl lb ub (t * half + half)).
   - injection H as <- _. destruct (_ || _); lia.
-  - destruct (in_interval iv (iv_xn iv * B / (iv_den iv * A)) (dp - k)); [injection H as <- _; lia|].
-    destruct (in_interval iv (iv_xn iv * B / (iv_den iv * A) + 1) (dp - k)); [injection H as <- _; lia|].
-    eapply IH; eauto.
+  - destruct (in_bounds incl lb ub (t * half)); [injection H as <- _; lia|].
+    destruct (in_bounds incl lb ub (t * half + half)); [injection H as <- _; lia|].
+    destruct (1 <=? P).
+    + eapply (IH incl (P - 1) xb lb ub (half / 10)); try lia; [|exact H]. apply div_nonneg; lia.
+    + eapply (IH incl (P - 1) (xb * 10) (lb * 10) (ub * 10) half); try lia. exact H.
 Qed.
 
 Lemma interval_xn_nonneg : forall m e, 0 <= m -> 0 <= iv_xn (interval m e) /\ 0 < iv_den (interval m e).
@@ -250,18 +256,31 @@ Proof.
   - apply Z.pow_pos_nonneg; lia.
 Qed.
 
+Lemma exact_dec_nonneg : forall m e, 0 <= m -> 0 <= fst (exact_dec m e).
+Proof.
+  intros m e Hm. unfold exact_dec. cbn [fst]. destruct (interval_xn_nonneg m e Hm) as [Hx _].
+  apply Z.mul_nonneg_nonneg; [exact Hx|]. apply Z.pow_nonneg. lia.
+Qed.
+
 Lemma shortest_nonneg : forall m e, 0 <= m -> 0 <= fst (shortest m e).
 Proof.
   intros m e Hm. unfold shortest. destruct (interval_xn_nonneg m e Hm) as [Hx Hd].
-  destruct (search 17 (interval m e) (dec_exp (iv_xn (interval m e)) (iv_den (interval m e))) 1) as [[D P]|] eqn:E.
-  - apply strip_zeros_nonneg. eapply search_nonneg; eauto.
-  - apply strip_zeros_nonneg. apply Z.mul_nonneg_nonneg; [exact Hx|]. apply Z.pow_nonneg. lia.
+  cbv zeta. set (P0 := dec_exp (iv_xn (interval m e)) (iv_den (interval m e)) - 1).
+  assert (HA : 0 <= 10 ^ Z.max P0 0) by (apply Z.pow_nonneg; lia).
+  assert (HB : 0 <= 10 ^ Z.max (- P0) 0) by (apply Z.pow_nonneg; lia).
+  match goal with |- 0 <= fst (if in_interval _ (fst ?c) (snd ?c) then _ else _) => assert (Hc : 0 <= fst c) end.
+  { destruct (search 17 _ P0 _ _ _ _) as [[D P]|] eqn:E.
+    - apply strip_zeros_nonneg. eapply search_nonneg; [| |exact E]; nia.
+    - apply exact_dec_nonneg. exact Hm. }
+  destruct (in_interval _ _ _); [exact Hc|apply exact_dec_nonneg; exact Hm].
 Qed.
 
 Lemma fixed_of_dec_num_ok : forall neg D P, 0 <= D -> num_ok (fixed_of_dec neg D P) = true.
 Proof.
-  intros neg D P HD. unfold fixed_of_dec. destruct (0 <=? P) eqn:E; apply fixed_text_num_ok; [|exact HD].
-  apply Z.leb_le in E. apply Z.mul_nonneg_nonneg; [exact HD|]. apply Z.pow_nonneg. lia.
+  intros neg D P HD. unfold fixed_of_dec. destruct (0 <=? P) eqn:E; [|apply fixed_text_num_ok; exact HD].
+  destruct (D =? 0) eqn:E0; [apply fixed_text_num_ok; lia|].
+  unfold num_ok. rewrite nrun_app, nrun_app, (nrun_intpart D _ HD (sign_run neg)), E0.
+  rewrite nrun_digits_stay by (auto using zeros_all). reflexivity.
 Qed.
 
 Theorem shortest_text_num_ok : forall x, fl_finite x = true -> fl_nonneg x = true -> num_ok (shortest_text x) = true.
@@ -331,4 +350,41 @@ Theorem ms_text_num_ok : forall ms, num_ok (wfloat64_text (ms_seconds ms)) = tru
 Proof.
   intros ms. destruct (fl_of_int_ok ms) as [Hf Hn].
   destruct (fl_div_int_ok _ 1000 ltac:(lia) Hf Hn) as [Hf' Hn']. split; [apply wfloat64_text_num_ok|apply f6_text_num_ok]; assumption.
+Qed.
+
+(* ------------------------------------------------------------------------------------------ *)
+(* "rendered without loss": the decimal FormatFloat(v,'f',-1,64) prints lies in the rounding interval of v
+   (between the midpoints to the neighbouring float64 values, the midpoints included exactly when the
+   mantissa is even), so a correctly rounding reader (strconv.ParseFloat, any IEEE 754 strtod) returns v *)
+
+Lemma exact_in_interval : forall m e, 0 < m ->
+  in_interval (interval m e) (fst (exact_dec m e)) (snd (exact_dec m e)) = true.
+Proof.
+  intros m e Hm. unfold exact_dec, in_interval, in_interval_ab. cbn [fst snd].
+  set (s := Z.max 0 (2 - e)). assert (Hs : 0 <= s) by lia.
+  replace (Z.max (- s) 0) with 0 by lia. replace (Z.max (- - s) 0) with s by lia.
+  rewrite Z.pow_0_r, Z.mul_1_r.
+  unfold interval. fold s. cbn [iv_xn iv_ln iv_un iv_den iv_incl].
+  set (E := e + s). assert (HE : 2 <= E) by lia.
+  assert (H2 : 2 ^ (E - 1) = 2 * 2 ^ (E - 2)) by (rewrite <- Z.pow_succ_r by lia; f_equal; lia).
+  assert (H1 : 2 ^ E = 4 * 2 ^ (E - 2)) by (replace E with (Z.succ (E - 1)) at 1 by lia; rewrite Z.pow_succ_r by lia; lia).
+  assert (Hq : 0 < 2 ^ (E - 2)) by (apply Z.pow_pos_nonneg; lia).
+  assert (H10 : 5 ^ s * 2 ^ s = 10 ^ s) by (rewrite <- Z.pow_mul_l; reflexivity).
+  assert (Ht : 0 < 10 ^ s) by (apply Z.pow_pos_nonneg; lia).
+  rewrite H1, H2. set (q := 2 ^ (E - 2)) in *. 
+  replace (m * (4 * q) * 5 ^ s * 2 ^ s) with (m * (4 * q) * 10 ^ s) by (rewrite <- H10; ring).
+  set (t := 10 ^ s) in *.
+  assert (Hqt : 0 < q * t) by nia.
+  destruct ((m =? 2 ^ 52) && negb (e =? -1074)); destruct (Z.even m);
+    apply andb_true_intro; split; try apply Z.leb_le; try apply Z.ltb_lt; nia.
+Qed.
+
+Theorem shortest_in_interval : forall m e, 0 < m ->
+  in_interval (interval m e) (fst (shortest m e)) (snd (shortest m e)) = true.
+Proof.
+  intros m e Hm. unfold shortest. cbv zeta.
+  match goal with |- context [if in_interval ?iv (fst ?c) (snd ?c) then _ else _] =>
+    destruct (in_interval iv (fst c) (snd c)) eqn:G end.
+  - exact G.
+  - apply exact_in_interval. exact Hm.
 Qed.
